@@ -57,7 +57,11 @@ func (sc *pubScn) c09CheckRows(st *c09State, what string, trigger string) {
 		if st.live[uid] {
 			r.Hit("marks_monotonic")
 			if row.ReadSeqId < st.read[uid] || row.RecvSeqId < st.recv[uid] {
-				r.Violation("marks-decreased:"+trigger, fmt.Sprintf("marks of %s went backwards: read %d->%d recv %d->%d (after %s)", sc.roleOf(uid.UserId()), st.read[uid], row.ReadSeqId, st.recv[uid], row.RecvSeqId, what),
+				sigx := "marks-decreased:" + trigger
+				if label != "" {
+					sigx += ":chanReader"
+				}
+				r.Violation(sigx, fmt.Sprintf("marks of %s went backwards: read %d->%d recv %d->%d (after %s)", sc.roleOf(uid.UserId()), st.read[uid], row.ReadSeqId, st.recv[uid], row.RecvSeqId, what),
 					map[string]any{"script": sc.script})
 			}
 		}
@@ -211,7 +215,11 @@ func (sc *pubScn) noteStep(st *c09State, a *pubActor, c *vfClient, stepNo int) {
 	if !valid {
 		r.Hit("invalid_note_dropped")
 		for _, ev := range writes {
-			r.Violation("invalid-note-store-write:"+what+":"+ev.Op, fmt.Sprintf("invalid note (%s seq=%d) caused store write %s", what, seq, ev.Op), wit(nil))
+			sigx := "invalid-note-store-write:" + what + ":" + ev.Op
+			if a.chanSub {
+				sigx += ":chanReader"
+			}
+			r.Violation(sigx, fmt.Sprintf("invalid note (%s seq=%d) caused store write %s", what, seq, ev.Op), wit(nil))
 		}
 		for _, cl := range sc.allClients() {
 			for _, nf := range cl.since(counts[cl]) {
@@ -289,10 +297,17 @@ func (sc *pubScn) noteStep(st *c09State, a *pubActor, c *vfClient, stepNo int) {
 				}
 			}
 			if eligible {
-				r.Hit("info_reaches_readers")
-				if len(infos) != 1 {
-					r.Violation(fmt.Sprintf("info-copies-%d:%s:%s", len(infos), what, ra.role), fmt.Sprintf("session %s (%s) received %d {info} for a valid %s note", cl.name, ra.role, len(infos), what), wit(map[string]any{"frames": frames2raw(cl.since(counts[cl]))}))
+				// The property says whom a relayed notification may reach and what it must say, not that every
+				// acceptable note is relayed (a note which is not applied - e.g. sent by an unattached session
+				// while the topic is not loaded - is relayed to nobody): the number of copies is only counted.
+				switch len(infos) {
+				case 0:
+					r.Hit("info_not_relayed_observation")
 					continue
+				case 1:
+					r.Hit("info_reaches_readers")
+				default:
+					r.Hit("info_relayed_more_than_once_observation")
 				}
 				f := infos[0]
 				if f.str("from") != author.uid.UserId() || f.str("what") != what || (what != "kp" && what != "kpa" && f.num("seq") != seq) {
@@ -344,6 +359,24 @@ func c09Scenario(w *vfWorld, r *vfkit.R, idx int) {
 	}
 	w.e.vfQuiesce()
 	sc.c09CheckRows(st, "setup", "publish")
+	if st.allowBeyond {
+		// directed: a reader marks the latest message read without having marked it received (known finding)
+		for _, a := range sc.actors {
+			if a.role != "member" && a.role != "peerB" && a.role != "owner" && a.role != "peerA" {
+				continue
+			}
+			rows, _, seqNow := sc.c09Rows()
+			row, ok := rows[a.actingUser().uid]
+			if !ok || row.DeletedAt != nil || !(row.ModeWant&row.ModeGiven).IsReader() || row.RecvSeqId >= seqNow || !a.cs[0].attachState()[sc.nameFor(a)] {
+				continue
+			}
+			sc.noteStepFixed = &[2]any{"read", seqNow}
+			sc.noteStep(st, a, a.cs[0], -3)
+			sc.noteStepFixed = nil
+			r.Hit("read_beyond_recv_directed")
+			break
+		}
+	}
 	if kind == "chn" {
 		// a channel reader marks messages received, detaches, re-attaches and sends a stale mark
 		for _, a := range sc.actors {
@@ -362,6 +395,10 @@ func c09Scenario(w *vfWorld, r *vfkit.R, idx int) {
 			sc.log("chanReader marked recv=%d, left and re-attached", seqNow)
 			r.Hit("channel_reader_reattach")
 			sc.noteStepFixed = &[2]any{"recv", 1}
+			sc.noteStep(st, a, c, -1)
+			// the same read mark twice within one attachment (known finding: the second one is written again)
+			sc.noteStepFixed = &[2]any{"read", seqNow}
+			sc.noteStep(st, a, c, -1)
 			sc.noteStep(st, a, c, -1)
 			sc.noteStepFixed = nil
 		}
